@@ -238,7 +238,7 @@ def judge(case, evs, part, cont_evs=None):
         elif not impl_ok:
             part.violation('tapscript-op-success:not-honoured', wit)
         return
-    sess = Session(script, stack, flags, sv, successor=case.get('succ', b''))
+    sess = Session(script, stack, flags, sv, successor=case.get('succ', b''), allow_disabled=bool(case.get('allow')))
     if sess.prefail:
         # tapscript with more than 1000 initial stack items: must be refused before anything executes
         part.violation('tapscript-initial-stack-over-1000-not-refused' if sess.prefail == 'STACK_SIZE' else 'not-refused-before-execution:' + sess.prefail, wit)
@@ -300,14 +300,14 @@ def execute(bindir, cases, part, tag='c01', post=None):
         hc = []
         for c in cases:
             extra = ['SS %s' % hexs(c['succ'])] if c.get('succ') else []
-            hc.append((c['id'], case_cmds(c['id'], c['script'], c['stack'], c['flags'], c['sv'], extra=extra)))
+            hc.append((c['id'], case_cmds(c['id'], c['script'], c['stack'], c['flags'], c['sv'], allow=bool(c.get('allow')), extra=extra)))
             if c['layer'] in ('deep', 'p2sh', 'rand', 'limit', 'succ') or (c['layer'].startswith('exh') and zlib.crc32(c['id'].encode()) % 7 == 0):
                 c['cont'] = True
-                hc.append((c['id'] + '/c', case_cmds(c['id'] + '/c', c['script'], c['stack'], c['flags'], c['sv'], tail=('C',), extra=extra)))
+                hc.append((c['id'] + '/c', case_cmds(c['id'] + '/c', c['script'], c['stack'], c['flags'], c['sv'], allow=bool(c.get('allow')), tail=('C',), extra=extra)))
             # "hovering" twin: every step is taken, taken back and taken again - the trace must be the same
             if c['layer'] in ('deep', 'limit', 'succ', 'p2sh') and zlib.crc32(c['id'].encode()) % 4 == 1:
                 c['hover'] = True
-                hc.append((c['id'] + '/h', case_cmds(c['id'] + '/h', c['script'], c['stack'], c['flags'], c['sv'], tail=('CSH',), extra=extra)))
+                hc.append((c['id'] + '/h', case_cmds(c['id'] + '/h', c['script'], c['stack'], c['flags'], c['sv'], allow=bool(c.get('allow')), tail=('CSH',), extra=extra)))
         events, crashes, hangs = run_harness_cases(bindir, hc, wd)
         bycase = {c['id']: c for c in cases}
         for cr in crashes:
